@@ -31,6 +31,11 @@ Section ExprHash.
   Variable vhash : value -> bytes.
   Variable pickle : opts value -> bytes.     (* pickle_dumps(self._options) *)
   Variable ve : variant.                     (* which SchedulerExpression._calc_hash *)
+  Variable nm : list (bytes * bytes).        (* SimpleExpression._calc_hash: operator names replaced before
+                                                hashing ([table.get(func_name, func_name)]); [] = verbatim *)
+
+  Definition map_name (n : bytes) : bytes :=
+    match lookup_b n nm with Some m => m | None => n end.
 
   Record expr := {
     e_kind : kind;
@@ -76,7 +81,7 @@ Section ExprHash.
             if is_nil (e_options e) && is_nil (e_export e) then [BStr (e_name e); BStr (eargs_hash e)]
             else [BStr (e_name e); BStr (eargs_hash e); BStr (options_hash e); BStr (export_hash e)]
         end
-    | KSimple => [BStr (e_name e); BStr (eargs_hash e)]
+    | KSimple => [BStr (map_name (e_name e)); BStr (eargs_hash e)]
     | KValue => match e_value e with Some v => [BStr (vhash v)] | None => [] end
     end.
 
@@ -206,6 +211,7 @@ Record edescription := {
   ed_task : list (guard * bytes * list efield);        (* branches of _calc_hash: guard, tag, fields *)
   ed_scheduler : list (guard * bytes * list efield);
   ed_simple : list (guard * bytes * list efield);
+  ed_simple_name_map : list (bytes * bytes);           (* [] when self.func_name is hashed verbatim *)
   ed_value : list (guard * bytes * list efield);
   ed_options_hash : bytes;                             (* expression that defines options_hash *)
   ed_export_hash : bytes;
@@ -232,11 +238,12 @@ Definition apply_setstate : list (bytes * bytes) :=
    (b "self.kwargs", b "registry.deserialize('builtins.dict', state['kwargs'])");
    (b "self._upstreams", b "[self.args, self.kwargs]")].
 
-Definition describe_expr (v : variant) : edescription := {|
+Definition describe_expr (v : variant) (nm : list (bytes * bytes)) : edescription := {|
   ed_task := [(GNoExport, b "TaskExpression", [EName; EArgsHash; EOptionsHash]);
               (GAlways, b "TaskExpression", [EName; EArgsHash; EOptionsHash; EExportHash])];
   ed_scheduler := scheduler_branches v;
   ed_simple := [(GAlways, b "SimpleExpression", [EName; EArgsHash])];
+  ed_simple_name_map := nm;
   ed_value := [(GAlways, b "ValueExpression", [EValueHash])];
   ed_options_hash := b "hash_bytes(pickle_dumps(self._options))";
   ed_export_hash := b "hash_struct(list(sorted(self._export_options)))";
